@@ -197,21 +197,27 @@ def individual_case(ctx, rng, idx):
                     bool(d_alt <= S.ks_crit(n))
     # table form of the same seeded call
     k = 3
-    arr_k = pm.sample(x, times, n_samples=k, seed=seed, return_df=False)
-    df = pm.sample(x, times, n_samples=k, seed=seed,
-                   include_regimen=bool(rng.integers(2)))
+    # (boolean flags may be numpy booleans - what np.any(...) or a
+    # comparison of numpy scalars returns)
+    flag = [True, False, np.True_, np.False_][int(rng.integers(4))]
+    arr_k = pm.sample(x, times, n_samples=k, seed=seed,
+                      return_df=[False, np.False_][int(rng.integers(2))])
+    df = pm.sample(x, times, n_samples=k, seed=seed, include_regimen=flag)
     outs = pm.get_output_names()
+    if not isinstance(arr_k, np.ndarray):
+        ctx.violation('table_labels_match_array', 'array_form_not_returned',
+                      {'type': type(arr_k).__name__}, feats)
+        return
     _check_table(ctx, df, arr_k, ts, outs, feats, 'individual', k)
     if sbml:
-        reg = df[df['Observable'].isna()] if 'Dose' in df.columns else None
         want = pm.get_dosing_regimen(float(np.max(ts)))
-        if 'Dose' in df.columns:
-            rows = df[df['Dose'].notna()]
-            n_want = 0 if want is None else len(want) * k
-            if len(rows) != n_want:
-                ctx.violation('table_dose_rows', 'dose_rows:individual',
-                              {'rows': len(rows), 'expected': n_want},
-                              feats)
+        n_want = 0 if (want is None or not bool(flag)) else len(want) * k
+        rows = df[df['Dose'].notna()] if 'Dose' in df.columns else []
+        ctx.count('dose_row_checks')
+        if len(rows) != n_want:
+            ctx.violation('table_dose_rows', 'dose_rows:individual',
+                          {'rows': len(rows), 'expected': n_want,
+                           'include_regimen': repr(flag)}, feats)
 
 
 def population_case(ctx, rng, idx):
@@ -406,6 +412,10 @@ def posterior_case(ctx, rng, idx):
     n_chains = int(rng.integers(2, 5))
     n_draws = int(rng.integers(3, 41))
     ids = ['ind %d' % i for i in range(int(rng.integers(1, 5)))]
+    if rng.random() < 0.25:
+        # (individuals labelled by integers, e.g. datasets of individual
+        # posteriors joined along an integer index)
+        ids = [3 * i + 1 for i in range(len(ids))]
     # the posterior variable that feeds model parameter p is var_names[p]
     # (its values encode p); the map may rename, exchange or shift names, so
     # that the posterior name of one parameter is the model name of another
